@@ -1619,6 +1619,16 @@ def family_f1(rng):
             tags=("dispatch", "irregular"),
         )
     )
+    # native 128 bit integer parameters (serde-json-wasm carries them as strings)
+    cs.append(
+        Contract(
+            "pu",
+            "f1",
+            std_handlers(rng, extra=[Handler("exec", "big", [Arg("amount", "u128"), Arg("delta", "i128")]), Handler("query", "big_q", [Arg("amount", "u128")], ret="String"), Handler("sudo", "big_s", [Arg("delta", "i128")])]),
+            err="own",
+            tags=("dispatch", "int128"),
+        )
+    )
     # seeded random programs: random handler sets over the closed type set
     words = ["mint", "burn", "lock", "vote", "claim", "stake", "wrap", "list", "info", "cfg", "set_x", "get_y", "do_it", "run9", "ab12_cd"]
     for k in range(4):
